@@ -21,11 +21,12 @@ class C10(CheckDef):
     programs = {
         'quick': [('0/0/1/2/1', {'count': 2}, 1500, 'random'), ('0;0/1/2/1;0', {'count': 3}, 1500, 'random'),
                   ('2/2/2/1', {'count': 3}, 1000, 'pct'), ('0/1/1', {'count': 1}, 800, 'random'),
-                  ('0/0/1', {'count': 3}, 300, 'random')],
+                  ('0/0/1', {'count': 3}, 300, 'random'),
+                  ('0/1/2', {'count': 2}, 3000, 'pb2'), ('0/0/1', {'count': 2}, 3000, 'pb2')],     # every schedule with at most 2 preemptions
         'thorough': [('0/0/1/2/1', {'count': 2}, 20000, 'random'), ('0;0/1/2/1;0', {'count': 3}, 20000, 'random'),
                      ('2/2/2/1', {'count': 3}, 20000, 'pct'), ('0/1/1', {'count': 1}, 10000, 'random'),
                      ('0;0;0/1;1/2;1/1;2', {'count': 4}, 20000, 'random'), ('0/0/1', {'count': 3}, 3000, 'random'),
-                     ('2/2/2/2/2/1', {'count': 5}, 20000, 'pct'), ('0,1,2;0,1,2/0,1,2;0,1,2/0,1,2;0,1,2', {'count': 2}, 30000, 'random')],
+                     ('2/2/2/2/2/1', {'count': 5}, 20000, 'pct'), ('0/1/2', {'count': 2}, 300000, 'pb3'), ('0/0/1/1', {'count': 2}, 300000, 'pb2'), ('0,1,2;0,1,2/0,1,2;0,1,2/0,1,2;0,1,2', {'count': 2}, 30000, 'random')],
     }
     assumptions = ['bounded: TLC results are for the thread/operation counts named in the configs',
                    'the substituted primitives implement C++ mutex / condition_variable semantics (validated by SyncTrace)',
